@@ -53,7 +53,9 @@ META = {
         "of the grids' .id (a scatter through that argsort, i.e. the inverse permutation, is a finding). R6: no raise of a "
         "mutator is reachable from a mutation of the five dictionaries (a rejected call leaves no trace). R7: the per-grid "
         "loops of add_subdomains are dominated by a uniqueness test of the argument list (len(set(..)) vs len, `is` double "
-        "loop, or de-duplication), else a grid listed twice gets two boundary grids. Decides these "
+        "loop, or de-duplication), else a grid listed twice gets two boundary grids. R8-R11 are clauses today's tree "
+        "violates (known findings): re-keying must survive old is new; add_interface validates that the pair belongs to the "
+        "container; listing methods never raise; the stored pair order is not re-sorted on read. Decides these "
         "structural clauses; does not decide the container's state for concrete histories, nor failures inside "
         "MortarGrid.update_* during a replacement."),
     "rule_text": "one obligation per (dict access | mutation event x pair | selection loop clause | re-key arm | "
@@ -68,7 +70,7 @@ META = {
                     "methods interfaces()/subdomains()/boundaries()/subdomain_to_interfaces() return present keys (checked by R3/R5)"],
     "technique": "dict typestate over a statement CFG (dominance/post-dominance, reaching definitions) + shape rules for the sort key",
 }
-MIN_INSTANCES = {"R1": 6, "R2": 16, "R3": 6, "R4": 8, "R5": 20, "R6": 5, "R7": 1}
+MIN_INSTANCES = {"R1": 6, "R2": 16, "R3": 6, "R4": 8, "R5": 20, "R6": 5, "R7": 1, "R8": 1, "R9": 1, "R10": 3, "R11": 1}
 
 
 # ---------------------------------------------------------------------------------------
@@ -1004,6 +1006,167 @@ def _pair_test(test: ast.expr, pair_names: set[str], params: set[str]):
     return conn, idx, who.pop()
 
 
+def _accepted_codims(infos: dict) -> set[int]:
+    """Co-dimensions |dim difference| that add_interface lets through (read from its validating test)."""
+    fi = infos.get("add_interface")
+    if fi is None:
+        raise AnchorError(f"{MD}:{CLS}.add_interface missing")
+    for iff in [n for n in walk_local(fi.fn) if isinstance(n, ast.If)]:
+        t = iff.test
+        if not (isinstance(t, ast.Compare) and len(t.ops) == 1):
+            continue
+        sides = [t.left, t.comparators[0]]
+        res = []
+        for x in sides:
+            if isinstance(x, ast.Name):
+                r = fi.resolve(x, iff)
+                x = r[0] if r and len(r) == 1 else x
+            res.append(x)
+        idx = [i for i, x in enumerate(res) if isinstance(x, ast.Call) and call_name(x) in ("abs", "absolute")
+               and ".dim" in u(x) and any(isinstance(n, ast.BinOp) and isinstance(n.op, ast.Sub) for n in ast.walk(x))]
+        const = [i for i, x in enumerate(res) if isinstance(x, ast.Constant) and isinstance(x.value, int)]
+        if len(idx) != 1 or len(const) != 1:
+            continue
+        ops = {ast.Lt: operator.lt, ast.LtE: operator.le, ast.Gt: operator.gt, ast.GtE: operator.ge, ast.Eq: operator.eq,
+               ast.NotEq: operator.ne}
+        f_ = ops.get(type(t.ops[0]))
+        if f_ is None:
+            continue
+        c = res[const[0]].value
+        body_raises = any(isinstance(n, ast.Raise) for b_ in iff.body for n in ast.walk(b_))
+        else_raises = any(isinstance(n, ast.Raise) for b_ in iff.orelse for n in ast.walk(b_))
+        acc = set()
+        for k in range(0, 4):
+            val = f_(k, c) if idx[0] == 0 else f_(c, k)
+            if (val and not body_raises) or (not val and not else_raises):
+                acc.add(k)
+        if body_raises or else_raises:
+            return acc
+    raise Undecided(f"{MD}:{CLS}.add_interface: cannot read which co-dimensions are accepted")
+
+
+def _source_coverage(fi: FnInfo, it: ast.expr, loop: ast.For, sdname: Optional[str], codims: set[int]):
+    """Does the iterable `it` contain every interface that may have the subdomain `sdname` in its pair?
+    -> (True, None) | (False, witness text) | None when the expression cannot be interpreted.
+    The source is interpreted as a predicate on (interface dim, interface codim) for each value of sd.dim in 0..3."""
+
+    def num(e: ast.expr, d: int, env: dict):
+        if isinstance(e, ast.Constant) and isinstance(e.value, int):
+            return e.value
+        if isinstance(e, ast.Attribute) and e.attr == "dim" and isinstance(e.value, ast.Name) and e.value.id == sdname:
+            return d
+        if isinstance(e, ast.Attribute) and isinstance(e.value, ast.Name) and e.value.id in env and e.attr in ("dim", "codim"):
+            return env[e.value.id][0 if e.attr == "dim" else 1]
+        if isinstance(e, ast.BinOp) and isinstance(e.op, (ast.Add, ast.Sub)):
+            l, r = num(e.left, d, env), num(e.right, d, env)
+            if l is None or r is None:
+                return None
+            return l + r if isinstance(e.op, ast.Add) else l - r
+        if isinstance(e, ast.UnaryOp) and isinstance(e.op, ast.USub):
+            v = num(e.operand, d, env)
+            return None if v is None else -v
+        if isinstance(e, ast.Name):
+            r = fi.resolve(e, loop)
+            if r and len(r) == 1 and r[0] is not e:
+                return num(r[0], d, env)
+        return None
+
+    def pred(t: ast.expr, d: int, env: dict):
+        if isinstance(t, ast.BoolOp):
+            vs = [pred(v, d, env) for v in t.values]
+            if any(v is None for v in vs):
+                return None
+            return all(vs) if isinstance(t.op, ast.And) else any(vs)
+        if isinstance(t, ast.UnaryOp) and isinstance(t.op, ast.Not):
+            v = pred(t.operand, d, env)
+            return None if v is None else not v
+        if isinstance(t, ast.Compare) and len(t.ops) == 1:
+            ops = {ast.Lt: operator.lt, ast.LtE: operator.le, ast.Gt: operator.gt, ast.GtE: operator.ge, ast.Eq: operator.eq,
+                   ast.NotEq: operator.ne}
+            l = num(t.left, d, env)
+            if isinstance(t.ops[0], (ast.In, ast.NotIn)) and isinstance(t.comparators[0], (ast.Tuple, ast.List, ast.Set)):
+                rs = [num(x, d, env) for x in t.comparators[0].elts]
+                if l is None or any(r is None for r in rs):
+                    return None
+                return (l in rs) == isinstance(t.ops[0], ast.In)
+            r = num(t.comparators[0], d, env)
+            f_ = ops.get(type(t.ops[0]))
+            if l is None or r is None or f_ is None:
+                return None
+            return f_(l, r)
+        return None
+
+    def member(e: ast.expr, d: int, idim: int, c: int):
+        """True/False: interface (idim, c) is in the collection e when sd.dim == d; None: unknown."""
+        if isinstance(e, ast.Name):
+            r = fi.resolve(e, loop)
+            if r and len(r) == 1 and r[0] is not e:
+                return member(r[0], d, idim, c)
+            return None
+        if isinstance(e, ast.Call) and call_name(e) in ("list", "tuple", "set", "sorted") and len(e.args) == 1:
+            return member(e.args[0], d, idim, c)
+        if isinstance(e, ast.Call) and isinstance(e.func, ast.Attribute) and e.func.attr in ("keys", "items") \
+                and _self_dict(e.func.value) in (IF_DATA, IF_SD):
+            return True
+        if _self_dict(e) in (IF_DATA, IF_SD):
+            return True
+        if isinstance(e, ast.Call) and u(e.func) in ("self.interfaces", "self.sort_interfaces"):
+            if u(e.func) == "self.sort_interfaces":
+                return member(e.args[0], d, idim, c) if len(e.args) == 1 else None
+            kw = {k.arg: k.value for k in e.keywords}
+            pos = ["return_data", "dim", "codim"]
+            for i, a in enumerate(e.args):
+                if i < len(pos):
+                    kw[pos[i]] = a
+            if set(kw) - {"return_data", "dim", "codim"} or None in kw:
+                return None
+            ok = True
+            for key, val in (("dim", idim), ("codim", c)):
+                if key in kw and not (isinstance(kw[key], ast.Constant) and kw[key].value is None):
+                    v = num(kw[key], d, {})
+                    if v is None:
+                        return None
+                    ok = ok and v == val
+            return ok
+        if isinstance(e, ast.BinOp) and isinstance(e.op, (ast.Add, ast.BitOr)):
+            l, r = member(e.left, d, idim, c), member(e.right, d, idim, c)
+            if l is True or r is True:
+                return True
+            return None if (l is None or r is None) else False
+        if isinstance(e, ast.Call) and call_name(e) == "chain":
+            vs = [member(a, d, idim, c) for a in e.args]
+            return True if any(v is True for v in vs) else (None if any(v is None for v in vs) else False)
+        if isinstance(e, (ast.ListComp, ast.GeneratorExp)) and len(e.generators) == 1 and isinstance(e.generators[0].target, ast.Name) \
+                and u(e.elt) == e.generators[0].target.id:
+            g = e.generators[0]
+            base = member(g.iter, d, idim, c)
+            if base is not True:
+                return base
+            for cond in g.ifs:
+                v = pred(cond, d, {g.target.id: (idim, c)})
+                if v is None:
+                    return None
+                if not v:
+                    return False
+            return True
+        return None
+
+    for d in range(0, 4):
+        adjacent = {(d, c) for c in codims if d + c <= 3} | {(d - c, c) for c in codims if d - c >= 0}
+        for idim, c in sorted(adjacent):
+            if idim > 2:
+                continue    # a mortar grid cannot be 3d
+            m = member(it, d, idim, c)
+            if m is None:
+                return None
+            if not m:
+                role = "the secondary" if idim == d and c > 0 else ("the primary" if c > 0 else "a same-dimensional")
+                return False, (f"sd.dim={d}: interfaces of dimension {idim} and co-dimension {c} "
+                               f"(sd is {role} neighbour)")
+    return True, None
+
+
+
 def _r3(ctx: Ctx, mod, infos: dict[str, FnInfo]) -> None:
     for name in ("remove_subdomain", "subdomain_to_interfaces"):
         fi = infos.get(name)
@@ -1033,24 +1196,19 @@ def _r3(ctx: Ctx, mod, infos: dict[str, FnInfo]) -> None:
         if len(sels) != 1:
             raise Undecided(f"{MD}:{CLS}.{name}: expected one interface selection loop, found {len(sels)}")
         loop, ivar, pair_names, iff, lst, params, it = sels[0]
-        # (a) source covers all interfaces
-        src_ok: Optional[bool] = None
-        if isinstance(it, ast.Call) and u(it.func) == "self.interfaces":
-            src_ok = not it.args and not it.keywords
-        else:
-            base = it
-            if isinstance(base, ast.Call) and call_name(base) in ("list", "tuple") and len(base.args) == 1:
-                base = base.args[0]
-            if isinstance(base, ast.Call) and isinstance(base.func, ast.Attribute) and base.func.attr in ("keys", "items"):
-                base = base.func.value
-            if _self_dict(base) in (IF_DATA, IF_SD):
-                src_ok = True
-        if src_ok is None:
-            raise Undecided(f"{MD}:{q}: interface source `{u(it)}` not among {ALL_INTERFACE_SOURCES}")
+        # (a) source covers every interface that can be adjacent to the subdomain
+        who0 = sorted(params)[0] if len(params) == 1 else None
+        codims = _accepted_codims(infos)
+        cov = _source_coverage(fi, it, loop, who0, codims)
+        if cov is None:
+            raise Undecided(f"{MD}:{q}: interface source `{u(it)}` not interpretable ({ALL_INTERFACE_SOURCES}, or dim/codim-filtered "
+                            f"self.interfaces(...) calls, their concatenation, a filtering comprehension)")
+        src_ok, witness = cov
         ctx.check("R3", src_ok, mod, q, it,
-                  "the interfaces of a subdomain must be searched among all interfaces; a dim/codim filter drops "
-                  "interfaces in which the subdomain is the other (higher- or lower-dimensional) neighbour",
-                  construct=f"selection source {u(it)}", facts={"source": u(it)})
+                  "the interfaces of a subdomain must be searched among all interfaces that can have it as a neighbour (interface "
+                  f"dimension sd.dim, sd.dim-1, sd.dim-2 ... for the co-dimensions {sorted(codims)} accepted by add_interface); "
+                  f"this source misses e.g. {witness}: such an interface stays listed and keeps pointing at the removed subdomain",
+                  construct=f"selection source {u(it)}", facts={"source": u(it), "missed": witness, "codims": sorted(codims)})
         # (b) predicate
         pt = _pair_test(iff.test, pair_names, params)
         if pt is None:
@@ -1887,6 +2045,165 @@ def _r7(ctx: Ctx, mod, infos: dict[str, FnInfo]) -> None:
 
 
 # ---------------------------------------------------------------------------------------
+# R8 - R11: clauses violated by today's tree (registered as known findings)
+# ---------------------------------------------------------------------------------------
+
+def _fresh_object(fi: FnInfo, key: ast.expr, at: ast.stmt) -> bool:
+    """The key is an object constructed in this function (cannot be identical to an existing key)."""
+    vals = fi.resolve(key, at)
+    return bool(vals) and all(isinstance(v, ast.Call) and isinstance(v.func, (ast.Attribute, ast.Name))
+                              and (call_name(v) or "")[:1].isupper() for v in vals)
+
+
+def _r8(ctx: Ctx, mod, infos: dict[str, FnInfo], mutators: set[str]) -> None:
+    """Re-keying D[new] = ...; del D[old] must survive old is new (identity map): delete first (pop), or guard."""
+    n = 0
+    for name in sorted(mutators):
+        fi = infos[name]
+        for d in DICTS:
+            stores = [e for e in fi.mutations() if e.d == d and e.op == "store" and not _is_update(fi, e)]
+            dels = [e for e in fi.mutations() if e.d == d and e.op == "del"]
+            for st in stores:
+                for dl in dels:
+                    if u(st.key) == u(dl.key) or fi.key_loop(st) is not fi.key_loop(dl):
+                        continue
+                    if not (isinstance(st.key, ast.Name) and isinstance(dl.key, ast.Name)):
+                        continue
+                    if _fresh_object(fi, st.key, st.stmt) or _fresh_object(fi, dl.key, dl.stmt):
+                        continue
+                    sn, dn = fi.node(st.stmt), fi.node(dl.stmt)
+                    delete_first = dn == sn or (fi.dominates(dn, sn) and not fi.cfg.reachable(sn, dn, fi.common_loops(st.stmt, dl.stmt)))
+                    guarded = False
+                    for par, child in fi.enclosing(dl.node, (ast.If,)):
+                        for c in _conjuncts(par.test):
+                            if isinstance(c, ast.Compare) and len(c.ops) == 1 and isinstance(c.ops[0], (ast.IsNot, ast.NotEq)) \
+                                    and {u(c.left), u(c.comparators[0])} == {u(st.key), u(dl.key)} and fi.in_body(par, child):
+                                guarded = True
+                    n += 1
+                    ctx.check("R8", delete_first or guarded, mod, st.q, dl.node,
+                              f"self.{d}[{u(st.key)}] is inserted and afterwards self.{d}[{u(dl.key)}] is deleted; when both name the "
+                              f"same object (identity map {{sd: sd}}) the entry just written is deleted and the subdomain vanishes "
+                              f"from the container while its interfaces stay listed",
+                              construct=f"re-key of self.{d}: insert new key before deleting old key, no `old is new` guard",
+                              facts={"insert": u(st.key), "delete": u(dl.key)})
+    if n == 0:
+        raise AnchorError(f"{MD}: no re-keying (insert new key / delete old key) found in any mutator")
+
+
+def _r9(ctx: Ctx, mod, infos: dict[str, FnInfo]) -> None:
+    """add_interface must reject a pair whose members are not subdomains of this md-grid."""
+    fi = infos["add_interface"]
+    q = f"{CLS}.add_interface"
+    params = [a.arg for a in fi.fn.args.args if a.arg != "self"]
+    pair = params[1] if len(params) > 1 else None
+    inserts = [e for e in fi.mutations() if e.op == "store"]
+    if pair is None or not inserts:
+        raise AnchorError(f"{MD}:{q}: signature or inserts not found")
+    tests, hint = [], False
+    late: list = []
+    for s_ in stmts_local(fi.fn):
+        if isinstance(s_, (ast.If, ast.Assert)):
+            mem = [c for c in ast.walk(s_.test) if isinstance(c, ast.Compare) and len(c.ops) == 1
+                   and isinstance(c.ops[0], (ast.In, ast.NotIn))
+                   and (u(c.comparators[0]) in (f"self.{SD}", "self", f"self.{SD}.keys()", "self.subdomains()"))]
+            rel = [c for c in mem if pair in names_in(s_.test)]
+            raises = isinstance(s_, ast.Assert) or any(isinstance(n, ast.Raise) for n in ast.walk(s_))
+            if rel and raises and all(fi.dominates(fi.node(s_), fi.node(e.stmt)) for e in inserts):
+                tests.append(s_)
+            elif rel and raises:
+                late.append(s_)       # recognised, but something is stored before it: decidable (finding)
+            elif mem:
+                hint = True
+    if not tests and not late and hint:
+        raise Undecided(f"{MD}:{q}: a membership test on the subdomains exists but not in an enumerated form")
+    ctx.check("R9", bool(tests), mod, q, inserts[0].node,
+              f"add_interface records `{pair}` without checking that both subdomains belong to this md-grid: an interface can point "
+              f"at a grid that is not listed by subdomains()", construct="add_interface: subdomain pair not validated against the container",
+              facts={"membership_tests": [u(t.test) for t in tests]})
+
+
+def _exists_positive_dim(e: ast.expr) -> Optional[bool]:
+    """True: e holds only if some stored subdomain has dim > 0; False: e can hold with 0-d subdomains only; None: unknown."""
+    if isinstance(e, ast.Call) and call_name(e) == "any" and len(e.args) == 1 and isinstance(e.args[0], (ast.GeneratorExp, ast.ListComp)):
+        c = e.args[0]
+        if len(c.generators) == 1 and isinstance(c.generators[0].target, ast.Name) and not c.generators[0].ifs:
+            it = c.generators[0].iter
+            base = it.func.value if isinstance(it, ast.Call) and isinstance(it.func, ast.Attribute) and it.func.attr == "keys" else it
+            if isinstance(base, ast.Call) and call_name(base) in ("list", "tuple") and len(base.args) == 1:
+                base = base.args[0]
+            over_sd = _self_dict(base) == SD or u(base) == "self.subdomains()"
+            p_ = _dim_pred(c.elt, c.generators[0].target.id)
+            if over_sd and p_ is not None:
+                return not p_(0)
+        return None
+    if isinstance(e, ast.Compare) and len(e.ops) == 1 and u(e.left) == "self.dim_max()" and isinstance(e.comparators[0], ast.Constant):
+        import operator as _op
+        f_ = {ast.Gt: _op.gt, ast.GtE: _op.ge, ast.NotEq: _op.ne}.get(type(e.ops[0]))
+        if f_ is not None and isinstance(e.comparators[0].value, int):
+            return not f_(0, e.comparators[0].value)
+        return None
+    if _self_dict(e) == SD or (isinstance(e, ast.Compare) and f"self.{SD}" in u(e) and "len(" in u(e)):
+        return False          # mere non-emptiness of the subdomain dict holds with 0-d subdomains only
+    return None
+
+
+def _r10(ctx: Ctx, mod, infos: dict[str, FnInfo]) -> None:
+    """Listing a consistent container never fails: a raise is admissible only under a guard that contradicts the
+    invariants R2 establishes (every positive-dimensional subdomain has a boundary grid)."""
+    for name in LISTING:
+        fi = infos[name]
+        raises = [r for r in stmts_local(fi.fn) if isinstance(r, ast.Raise)]
+        bad, guards = [], []
+        for r in raises:
+            g = next((p for p, c in fi.enclosing(r, (ast.If,)) if fi.in_body(p, c)), None)
+            guards.append(u(g.test) if g is not None else "<unconditional>")
+            if g is None:
+                bad.append(r)
+                continue
+            conj = _conjuncts(g.test)
+            no_bg = any((isinstance(c, ast.UnaryOp) and isinstance(c.op, ast.Not) and _self_dict(c.operand) == SD_BG)
+                        or u(c) in (f"len(self.{SD_BG}) == 0", f"not len(self.{SD_BG})") for c in conj)
+            ex = [_exists_positive_dim(c) for c in conj if not (isinstance(c, ast.UnaryOp) and isinstance(c.op, ast.Not)
+                                                                and _self_dict(c.operand) == SD_BG)]
+            if no_bg and any(v is True for v in ex):
+                continue                       # unreachable for a container that satisfies R2
+            if no_bg and ex and all(v is False for v in ex):
+                bad.append(r)                  # reachable with 0-d subdomains only
+                continue
+            raise Undecided(f"{MD}:{CLS}.{name}: cannot decide whether the raise under `{u(g.test)}` is reachable for a consistent "
+                            f"container")
+        ctx.check("R10", not bad, mod, f"{CLS}.{name}", bad[0] if bad else fi.fn,
+                  f"{name}() raises under {guards}: a md-grid in a legitimate state (e.g. only 0-d subdomains, which have no boundary "
+                  f"grid) cannot be listed", construct=f"{name}: raise in a listing method",
+                  facts={"guards": guards})
+
+
+def _r11(ctx: Ctx, mod, infos: dict[str, FnInfo]) -> None:
+    """The stored pair order is authoritative (it is what replace_* preserves and what update_primary/secondary followed)."""
+    fi = infos.get("interface_to_subdomain_pair")
+    if fi is None:
+        raise AnchorError(f"{MD}:{CLS}.interface_to_subdomain_pair missing")
+    q = f"{CLS}.interface_to_subdomain_pair"
+    rets = [r for r in stmts_local(fi.fn) if isinstance(r, ast.Return) and r.value is not None]
+    if not rets:
+        raise AnchorError(f"{MD}:{q}: no return")
+    for r in rets:
+        vals = fi.resolve(r.value, r) or [r.value]
+        resorted = any(isinstance(n, ast.Call) and call_name(n) in ("sort_subdomain_tuple", "argsort_grids", "sort_subdomains", "sorted")
+                       for v in vals for n in ast.walk(v))
+        stored = all(any(_reads_map(n, IF_SD) is not None for n in ast.walk(v)) or
+                     any(isinstance(n, ast.Name) and any(_reads_map(x, IF_SD) is not None for x in (fi.resolve(n, r) or []))
+                         for n in ast.walk(v)) for v in vals)
+        if not stored:
+            raise Undecided(f"{MD}:{q}: return `{u(r.value)}` does not read {IF_SD}")
+        ctx.check("R11", not resorted, mod, q, r,
+                  "interface_to_subdomain_pair re-sorts the stored pair by (dim, id): for a co-dimension-0 interface the order then "
+                  "depends on creation ids, so after the first subdomain is replaced by a newer grid primary and secondary swap, "
+                  "although replace_* kept the positions and updated the mortar projections accordingly",
+                  construct="interface_to_subdomain_pair: stored pair re-sorted on read")
+
+
+# ---------------------------------------------------------------------------------------
 # clean-tree observations (notes only, never findings)
 # ---------------------------------------------------------------------------------------
 
@@ -1952,6 +2269,10 @@ def run(ctx: Ctx) -> None:
     _r5_argsort(ctx, mod, infos["argsort_grids"])
     _r6(ctx, mod, infos, mutators)
     _r7(ctx, mod, infos)
+    _r8(ctx, mod, infos, mutators)
+    _r9(ctx, mod, infos)
+    _r10(ctx, mod, infos)
+    _r11(ctx, mod, infos)
     _observations(ctx, infos, mutators)
 
     if ctx.tier == "thorough":
@@ -2009,6 +2330,10 @@ MUTANTS = [
        "            if sd_pair[0] == sd:\n                interfaces_to_remove.append(intf)", "R3"),
     _m("remove-filters-interfaces-by-dim", "        for intf in self.interfaces():\n            sd_pair = self._interface_to_subdomains[intf]",
        "        for intf in self.interfaces(dim=sd.dim):\n            sd_pair = self._interface_to_subdomains[intf]", "R3"),
+    _m("seed-remove-searches-codim1-interfaces-only",
+       "        for intf in self.interfaces():\n            sd_pair = self._interface_to_subdomains[intf]",
+       "        for intf in self.interfaces(dim=sd.dim) + self.interfaces(dim=sd.dim - 1):\n"
+       "            sd_pair = self._interface_to_subdomains[intf]", "R3"),
     _m("subdomain-to-interfaces-secondary-only", "            if sd_pair[0] == sd or sd_pair[1] == sd:\n                interfaces.append(intf)",
        "            if sd_pair[1] == sd:\n                interfaces.append(intf)", "R3"),
     # re-keying
@@ -2037,6 +2362,17 @@ MUTANTS = [
     _m("argsort-ids-descending", "np.argsort(ids_dim)\n", "np.argsort(ids_dim)[::-1]\n", "R5"),
     _m("sort-tuple-swapped", "return (subdomains[inds[0]], subdomains[inds[1]])",
        "return (subdomains[inds[1]], subdomains[inds[0]])", "R5"),
+    # reverted fixes 5ceea7095 (identity map), a80b6f32d (foreign subdomain), 91249e198 (boundaries with 0-d only)
+    _m("revert-fix-replace-identity-map",
+       "                if sd_old is sd_new:\n                    # Nothing to replace. The deletions below would remove the subdomain.\n"
+       "                    continue\n", "", "R8", control=True),
+    _m("revert-fix-add-interface-foreign-subdomain",
+       "        if any(sd not in self._subdomain_data for sd in sd_pair):\n"
+       "            raise ValueError(\"Both subdomains of an interface must be in the md-grid\")\n", "", "R9"),
+    _m("revert-fix-boundaries-0d-only", "            any(sd.dim > 0 for sd in self._subdomain_data)\n",
+       "            self._subdomain_data\n", "R10"),
+    _m("boundaries-guard-counts-0d", "            any(sd.dim > 0 for sd in self._subdomain_data)\n",
+       "            any(sd.dim >= 0 for sd in self._subdomain_data)\n", "R10"),
     # validation order (reverted fixes 0b020dfbc, 62fc2be25)
     dict(name="revert-fix-add-interface-validate-first", rule="R6", control=True, edits=[
         dict(file=MD, count=1,
